@@ -42,6 +42,9 @@ def main():
              "| change | property | exit | violations | stale proofs | summary |", "|---|---|---|---|---|---|"]
     for sid in sorted(res):
         r = res[sid]
+        if 'patch does not apply' in r['summary']:
+            lines.append("| %s | %s | - | - | - | does not apply to the final tree any more (the code it refactors was changed by a later fix); it was run when it was written: no alarm |" % (sid, r['property']))
+            continue
         m = re.search(r"obligations=(\d+) discharged=(\d+) bounded=(\S+)", r['summary'])
         lines.append("| %s | %s | %d | %d | %s | %s |" % (sid, r['property'], r['exit'], r['violations'], "; ".join(r['stale']) or "-",
                                                        ("%s/%s discharged, bounded %s" % (m.group(2), m.group(1), m.group(3))) if m else r['summary'][:80]))
